@@ -10,3 +10,4 @@ import TypedpyModel.Props.C06
 #print axioms Typedpy.C06.deserialize_accepts_iff_partial
 #print axioms Typedpy.C06.exact_fragment_example
 #print axioms Typedpy.C06.exact_set_map_example
+#print axioms Typedpy.C06.exact_optional_example
